@@ -119,7 +119,9 @@ def run(pid, tier, seed, replay=None):
     plans = [("known", seed, 250 if quick else 4000, 6), ("unknown", seed + 1, 120 if quick else 1500, 5),
              ("noreflection", seed + 2, 120 if quick else 1500, 5), ("mixed", seed + 3, 200 if quick else 3000, 8),
              ("shapes", seed + 4, 60 if quick else 800, 6),
-             ("boundary", 0, 4 if quick else 40, 6)]     # the edge values of every type, written out (not sampled)
+             ("boundary", 0, 4 if quick else 40, 6),     # the edge values of every type, written out (not sampled)
+             # values of more than a mebibyte; long byte strings reach TLC as digests (tools/xmltok.py shrink)
+             ("bigvalues", seed + 9, 3 if quick else 12, 6)]
     if pid == "C02":
         # every serializable descriptor (canonical and alias spellings) as a one-property instance, default options
         plans.append(("descriptors", seed + 8, 0, 6))
